@@ -1,6 +1,7 @@
-(** C12 — lemmas.  Parser: the transliterated u16 parser refines the grammar; integer
-    renderers: digit vector round trip, the saturating u16 padding arithmetic equals
-    std.jsonnet's render_int / render_hex; value consumption of format_arr; object mode. *)
+(** C12 — lemmas.  Parser: the transliterated parser (checked u16 accumulator) IS the grammar;
+    integer renderers: digit vector round trip, the saturating u16 padding arithmetic equals
+    std.jsonnet's render_int / render_hex; %c; final padding; value consumption of format_arr;
+    object mode. *)
 From Coq Require Import List ZArith NArith Lia Bool.
 From JrV Require Import Gen.GenFormat C12.Model.
 Import ListNotations.
@@ -87,38 +88,57 @@ Proof. reflexivity. Qed.
 
 Definition dec_step (a d : N) : N := 10 * a + (d - 48).
 
-Lemma width_loop_span : forall s out,
-  impl_width_loop s out = Err EPanic \/
-  impl_width_loop s out =
-  match snd (span is_digit s) with
-  | [] => Err ETrunc
-  | _ => Ok (fold_left dec_step (fst (span is_digit s)) out, snd (span is_digit s))
-  end.
+Lemma fold_dec_ge : forall l a, a <= fold_left dec_step l a.
 Proof.
-  induction s as [|c t IH]; intros out; cbn [impl_width_loop span]; [right; reflexivity|].
-  rewrite digit_of_spec. destruct (is_digit c) eqn:D; cbn [fst snd]; [|right; reflexivity].
-  unfold chk16. destruct (out * 10 <=? u16_max) eqn:C1; [|left; reflexivity].
-  destruct (out * 10 + (c - 48) <=? u16_max) eqn:C2; [|left; reflexivity].
-  destruct (IH (out * 10 + (c - 48))) as [P|E]; [left; exact P|right].
-  rewrite E. cbn [fold_left]. replace (dec_step out c) with (out * 10 + (c - 48)) by (unfold dec_step; lia). reflexivity.
+  induction l as [|d t IH]; intros a; cbn [fold_left]; [lia|].
+  specialize (IH (dec_step a d)). unfold dec_step in *. lia.
 Qed.
 
-Lemma field_width_refines : forall s,
-  impl_field_width s = Err EPanic \/ impl_field_width s = spec_field_width s.
+(** the checked u16 accumulator: "too large" exactly when the decimal value of the digit run
+    exceeds 65535 (reported before the end-of-input test), else the value *)
+Lemma width_loop_span : forall s out, out <= u16_max ->
+  impl_width_loop s out =
+  if u16_max <? fold_left dec_step (fst (span is_digit s)) out then Err ETooLarge
+  else match snd (span is_digit s) with
+       | [] => Err ETrunc
+       | _ => Ok (fold_left dec_step (fst (span is_digit s)) out, snd (span is_digit s))
+       end.
 Proof.
-  intros [|c t]; [right; reflexivity|]. unfold impl_field_width, spec_field_width.
-  destruct (c =? ch_star); [right; reflexivity|].
-  destruct (width_loop_span (c :: t) 0) as [P|E]; [left; rewrite P; reflexivity|right].
-  rewrite E. unfold decimal. fold dec_step.
+  induction s as [|c t IH]; intros out Ho; cbn [impl_width_loop span].
+  - cbn [fst snd fold_left]. replace (u16_max <? out) with false by (symmetry; apply N.ltb_ge; exact Ho).
+    reflexivity.
+  - rewrite digit_of_spec. destruct (is_digit c) eqn:D; cbn [fst snd fold_left].
+    + unfold chk16.
+      pose proof (fold_dec_ge (fst (span is_digit t)) (dec_step out c)) as G.
+      destruct (out * 10 <=? u16_max) eqn:C1.
+      * destruct (out * 10 + (c - 48) <=? u16_max) eqn:C2.
+        -- apply N.leb_le in C2. rewrite IH by exact C2.
+           replace (dec_step out c) with (out * 10 + (c - 48)) by (unfold dec_step; lia). reflexivity.
+        -- apply N.leb_gt in C2.
+           assert (E : (u16_max <? fold_left dec_step (fst (span is_digit t)) (dec_step out c)) = true)
+             by (apply N.ltb_lt; unfold dec_step in *; lia).
+           rewrite E. reflexivity.
+      * apply N.leb_gt in C1.
+        assert (E : (u16_max <? fold_left dec_step (fst (span is_digit t)) (dec_step out c)) = true)
+          by (apply N.ltb_lt; unfold dec_step in *; lia).
+        rewrite E. reflexivity.
+    + replace (u16_max <? out) with false by (symmetry; apply N.ltb_ge; exact Ho). reflexivity.
+Qed.
+
+Lemma field_width_refines : forall s, impl_field_width s = spec_field_width s.
+Proof.
+  intros [|c t]; [reflexivity|]. unfold impl_field_width, spec_field_width.
+  destruct (c =? ch_star); [reflexivity|].
+  rewrite width_loop_span by (unfold u16_max; lia).
+  unfold decimal. fold dec_step.
+  destruct (u16_max <? fold_left dec_step (fst (span is_digit (c :: t))) 0); [reflexivity|].
   destruct (snd (span is_digit (c :: t))); reflexivity.
 Qed.
 
-Lemma precision_refines : forall s,
-  impl_precision s = Err EPanic \/ impl_precision s = spec_precision s.
+Lemma precision_refines : forall s, impl_precision s = spec_precision s.
 Proof.
-  intros [|c t]; [right; reflexivity|]. unfold impl_precision, spec_precision.
-  destruct (c =? ch_dot); [|right; reflexivity].
-  destruct (field_width_refines t) as [P|E]; [left; rewrite P; reflexivity|right; rewrite E; reflexivity].
+  intros [|c t]; [reflexivity|]. unfold impl_precision, spec_precision.
+  destruct (c =? ch_dot); [|reflexivity]. rewrite field_width_refines. reflexivity.
 Qed.
 
 Lemma conv_table_ok : forall c, assoc c conv_table = spec_conv c.
@@ -152,125 +172,42 @@ Proof.
   unfold lenmod_chars; cbn [memN]. rewrite ?E1, ?E2, ?E3. reflexivity.
 Qed.
 
-Lemma lenmod_not_conv : forall c, is_lenmod c = true -> spec_conv c = None.
-Proof.
-  intros c. unfold is_lenmod.
-  destruct (c =? 104) eqn:E1; [apply N.eqb_eq in E1; subst; reflexivity|].
-  destruct (c =? 108) eqn:E2; [apply N.eqb_eq in E2; subst; reflexivity|].
-  destruct (c =? 76) eqn:E3; [apply N.eqb_eq in E3; subst; reflexivity|].
-  discriminate.
-Qed.
+Lemma lenmod_refines : forall s, impl_lenmod s = spec_lenmod s.
+Proof. intros [|c t]; [reflexivity|]. unfold impl_lenmod, spec_lenmod. rewrite lenmod_table_ok. reflexivity. Qed.
 
 Lemma convtype_refines : forall s, impl_convtype s = spec_convtype s.
 Proof. intros [|c t]; [reflexivity|]. unfold impl_convtype, spec_convtype. rewrite conv_table_ok. reflexivity. Qed.
 
-Lemma lenmod_conv_refines : forall s,
-  (exists c, is_lenmod c = true /\ bind (spec_lenmod s) spec_convtype = Err (EUnrec c)) \/
-  bind (impl_lenmod s) impl_convtype = bind (spec_lenmod s) spec_convtype.
-Proof.
-  intros [|c t]; [right; reflexivity|].
-  cbn [impl_lenmod spec_lenmod]. rewrite lenmod_table_ok.
-  destruct (is_lenmod c) eqn:L.
-  - destruct t as [|c2 t2]; [right; reflexivity|].
-    cbn [impl_lenmod]. rewrite lenmod_table_ok.
-    destruct (is_lenmod c2) eqn:L2.
-    + left. exists c2. split; [exact L2|]. cbn [bind spec_convtype]. rewrite (lenmod_not_conv _ L2). reflexivity.
-    + right. cbn [bind]. apply convtype_refines.
-  - right. cbn [bind]. apply convtype_refines.
-Qed.
-
-Lemma bind_assoc : forall A B C (r : res A) (f : A -> res B) (g : B -> res C),
-  bind (bind r f) g = bind r (fun a => bind (f a) g).
-Proof. intros. destruct r; reflexivity. Qed.
-
-Lemma parse_code_refines : forall s,
-  impl_parse_code s = Err EPanic \/
-  (exists c, is_lenmod c = true /\ spec_parse_code s = Err (EUnrec c)) \/
-  impl_parse_code s = spec_parse_code s.
+Lemma parse_code_refines : forall s, impl_parse_code s = spec_parse_code s.
 Proof.
   intros s. unfold impl_parse_code, spec_parse_code.
-  rewrite mapping_key_refines. destruct (spec_mapping_key s) as [[k r1]|e]; cbn [bind fst snd]; [|auto].
-  rewrite cflags_refines. destruct (spec_cflags r1) as [[f r2]|e]; cbn [bind fst snd]; [|auto].
-  destruct (field_width_refines r2) as [P|E]; [left; rewrite P; reflexivity|rewrite E].
-  destruct (spec_field_width r2) as [[w r3]|e]; cbn [bind fst snd]; [|auto].
-  destruct (precision_refines r3) as [P|E2]; [left; rewrite P; reflexivity|rewrite E2].
-  destruct (spec_precision r3) as [[p r4]|e]; cbn [bind fst snd]; [|auto].
-  rewrite <- !bind_assoc.
-  destruct (lenmod_conv_refines r4) as [[c [L S]]|E3].
-  - right; left. exists c. split; [exact L|]. rewrite S. reflexivity.
-  - right; right. rewrite E3. reflexivity.
+  rewrite mapping_key_refines. destruct (spec_mapping_key s) as [[k r1]|e]; cbn [bind fst snd]; [|reflexivity].
+  rewrite cflags_refines. destruct (spec_cflags r1) as [[f r2]|e]; cbn [bind fst snd]; [|reflexivity].
+  rewrite field_width_refines. destruct (spec_field_width r2) as [[w r3]|e]; cbn [bind fst snd]; [|reflexivity].
+  rewrite precision_refines. destruct (spec_precision r3) as [[p r4]|e]; cbn [bind fst snd]; [|reflexivity].
+  rewrite lenmod_refines. destruct (spec_lenmod r4) as [r5|e]; cbn [bind]; [|reflexivity].
+  rewrite convtype_refines. reflexivity.
 Qed.
-Lemma parse_codes_f_refines : forall fuel s,
-  parse_codes_f impl_parse_code fuel s <> Err EPanic ->
-  (forall c, is_lenmod c = true -> parse_codes_f spec_parse_code fuel s <> Err (EUnrec c)) ->
-  parse_codes_f impl_parse_code fuel s = parse_codes_f spec_parse_code fuel s.
+
+Lemma parse_codes_f_ext : forall (f g : list N -> res (code * list N)),
+  (forall s, f s = g s) -> forall fuel s, parse_codes_f f fuel s = parse_codes_f g fuel s.
 Proof.
-  induction fuel as [|f IH]; intros s H1 H2; [reflexivity|].
-  cbn [parse_codes_f] in *.
-  destruct (snd (lit_span s)) as [|p after]; [reflexivity|].
-  destruct (parse_code_refines after) as [P|[[c [L S]]|E]].
-  - exfalso. apply H1. rewrite P. reflexivity.
-  - exfalso. apply (H2 c L). rewrite S. reflexivity.
-  - rewrite E in *. destruct (spec_parse_code after) as [[cd rest]|e]; [|reflexivity].
-    rewrite IH; [reflexivity| |].
-    + intro X. apply H1. rewrite X. reflexivity.
-    + intros c L X. apply (H2 c L). rewrite X. reflexivity.
+  intros f g H. induction fuel as [|n IH]; intros s; [reflexivity|].
+  cbn [parse_codes_f]. destruct (snd (lit_span s)) as [|p after]; [reflexivity|].
+  rewrite H. destruct (g after) as [[cd rest]|e]; [|reflexivity]. rewrite IH. reflexivity.
 Qed.
 
-Lemma parse_refines : forall s,
-  impl_parse_codes s <> Err EPanic -> known_lenmod s = false ->
-  impl_parse_codes s = spec_parse_codes s.
-Proof.
-  intros s H1 H2. unfold impl_parse_codes, spec_parse_codes, parse_codes in *.
-  apply parse_codes_f_refines; [exact H1|].
-  intros c L X. unfold known_lenmod, spec_parse_codes, parse_codes in H2. rewrite X in H2. congruence.
-Qed.
+Lemma parse_refines : forall s, impl_parse_codes s = spec_parse_codes s.
+Proof. intros s. apply parse_codes_f_ext. exact parse_code_refines. Qed.
 
-(* refutations *)
-Lemma parse_width_overflow_refuted :
-  exists s es, impl_parse_codes s = Err EPanic /\ spec_parse_codes s = Ok es.
-Proof. exists [37; 54; 53; 53; 51; 54; 100]. eexists. split; vm_compute; reflexivity. Qed.
-
-Lemma parse_lenmod_refuted :
-  exists s es c, impl_parse_codes s = Ok es /\ spec_parse_codes s = Err (EUnrec c) /\ known_lenmod s = true.
-Proof. exists [37; 108; 108; 100]. eexists. eexists. repeat split; vm_compute; reflexivity. Qed.
-Lemma fold_dec_ge : forall l a, a <= fold_left dec_step l a.
-Proof.
-  induction l as [|d t IH]; intros a; cbn [fold_left]; [lia|].
-  specialize (IH (dec_step a d)). unfold dec_step in *. lia.
-Qed.
-
-(** the u16 accumulator overflows only when the width the grammar reads is above 65535 *)
-Lemma width_panic_only_if_big : forall s out,
-  impl_width_loop s out = Err EPanic ->
-  u16_max < fold_left dec_step (fst (span is_digit s)) out.
-Proof.
-  induction s as [|c t IH]; intros out H; cbn [impl_width_loop span] in *; [discriminate|].
-  rewrite digit_of_spec in H. destruct (is_digit c) eqn:D; [|discriminate].
-  cbn [fst fold_left]. unfold chk16 in H.
-  destruct (out * 10 <=? u16_max) eqn:C1.
-  - destruct (out * 10 + (c - 48) <=? u16_max) eqn:C2.
-    + replace (dec_step out c) with (out * 10 + (c - 48)) by (unfold dec_step; lia). apply IH. exact H.
-    + apply N.leb_gt in C2. pose proof (fold_dec_ge (fst (span is_digit t)) (dec_step out c)).
-      unfold dec_step in *. lia.
-  - apply N.leb_gt in C1. pose proof (fold_dec_ge (fst (span is_digit t)) (dec_step out c)).
-    unfold dec_step in *. lia.
-Qed.
-
-Lemma field_width_panic_only_if_big : forall s,
-  impl_field_width s = Err EPanic ->
-  exists n rest, spec_field_width s = Ok (WFixed n, rest) /\ u16_max < n \/ spec_field_width s = Err ETrunc /\ u16_max < decimal (fst (span is_digit s)).
-Proof.
-  intros [|c t] H; [discriminate|]. unfold impl_field_width, spec_field_width in *.
-  destruct (c =? ch_star); [discriminate|].
-  destruct (impl_width_loop (c :: t) 0) as [[n r]|e] eqn:W; [discriminate|].
-  cbn [bind] in H. inversion H; subst.
-  pose proof (width_panic_only_if_big _ _ W) as B. fold dec_step in B.
-  exists (decimal (fst (span is_digit (c :: t)))), (snd (span is_digit (c :: t))).
-  unfold decimal. fold dec_step.
-  destruct (snd (span is_digit (c :: t))); [right|left]; split; try reflexivity; exact B.
-Qed.
-
+(** the grammar never yields a panic: a width above 65535 is the "too large" error *)
+Lemma width_limit_examples :
+  impl_parse_codes [37; 54; 53; 53; 51; 54; 100] = Err ETooLarge /\
+  impl_parse_codes [37; 54; 53; 53; 51; 53; 100] =
+    Ok [ECode {| c_mkey := []; c_flags := no_flags; c_width := WFixed 65535; c_prec := None;
+                 c_type := GDecimal; c_caps := false |}] /\
+  impl_parse_codes [37; 108; 108; 100] = Err (EUnrec 108).
+Proof. repeat split; vm_compute; reflexivity. Qed.
 Open Scope Z_scope.
 
 Definition lsf_value (radix : Z) (l : list Z) : Z := fold_right (fun d a => a * radix + d) 0 l.
@@ -387,8 +324,7 @@ Proof.
   change radix_decimal with 10. change prefix_decimal with (@nil N).
   change prefix_in_padding_decimal with false. change caps_decimal with false.
   rewrite (sat_small iv Hz). rewrite numeral_refines by (auto; lia).
-  f_equal. cbn [app]. replace (if iv =? 0 then [] else []) with (@nil N) by (destruct (iv =? 0); reflexivity).
-  cbn [app].
+  f_equal. rewrite andb_false_r. cbn [app].
   assert (D : (if iv =? 0 then [ch_zero] else spec_numeral false 10 iv) = spec_numeral false 10 iv).
   { unfold spec_numeral. destruct (iv =? 0); reflexivity. }
   rewrite D. unfold pad_left. f_equal. apply repeat_eq.
@@ -396,14 +332,13 @@ Proof.
   unfold lenN, b2n. destruct (neg || blank || sign); cbn [length]; lia.
 Qed.
 
-(** render_octal = render_int radix 8 with zero_prefix "0" — except `#` on 0 < |x| < 1 *)
-Lemma render_octal_refines : forall neg nonzero iv padding precision alt blank sign,
-  0 <= iv < 2 ^ 63 -> (iv <> 0 -> nonzero = true) ->
-  alt && nonzero && (iv =? 0) = false ->
-  impl_render_octal neg nonzero iv padding precision alt blank sign =
+(** render_octal = render_int radix 8 with zero_prefix "0" *)
+Lemma render_octal_refines : forall neg iv padding precision alt blank sign,
+  0 <= iv < 2 ^ 63 ->
+  impl_render_octal neg iv padding precision alt blank sign =
   spec_render_int neg iv (Z.of_N padding) (Z.of_N precision) blank sign 8 (if alt then [ch_zero] else []).
 Proof.
-  intros neg nonzero iv padding precision alt blank sign Hz Hnz Hk.
+  intros neg iv padding precision alt blank sign Hz.
   unfold impl_render_octal, impl_render_integer, spec_render_int.
   change radix_octal with 8. change prefix_octal with [ch_zero].
   change prefix_in_padding_octal with true. change caps_octal with false.
@@ -411,50 +346,40 @@ Proof.
   f_equal. unfold pad_left.
   pose proof (spec_numeral_len false 8 iv ltac:(auto) Hz) as L.
   destruct (iv =? 0) eqn:E.
-  - assert (alt && nonzero = false) by (destruct alt, nonzero; cbn in *; congruence).
-    rewrite H. cbn [app]. f_equal.
-    + apply repeat_eq. unfold lenN, b2n. apply Z.eqb_eq in E. subst.
-      destruct (neg || blank || sign); cbn; lia.
-    + apply Z.eqb_eq in E. subst. reflexivity.
-  - apply Z.eqb_neq in E. rewrite (Hnz E). rewrite andb_true_r.
+  - apply Z.eqb_eq in E. subst. replace (1 <=? 0) with false by reflexivity.
+    rewrite andb_false_r. cbn [andb app]. f_equal.
+    apply repeat_eq. unfold lenN, b2n. destruct (neg || blank || sign); cbn; lia.
+  - apply Z.eqb_neq in E. replace (1 <=? iv) with true by (symmetry; apply Z.leb_le; lia).
+    rewrite andb_true_r. cbn [andb].
     destruct alt.
-    + cbn [app]. rewrite app_comm_cons, repeat_cons, <- app_assoc. cbn [app].
+    + cbn [andb app]. rewrite app_comm_cons, repeat_cons, <- app_assoc. cbn [app].
       f_equal. apply repeat_eq. unfold lenN, b2n. cbn [length app]. rewrite ?L.
       destruct (neg || blank || sign); cbn [length]; lia.
-    + cbn [app]. f_equal. apply repeat_eq. unfold lenN, b2n. cbn [length app]. rewrite ?L.
+    + cbn [andb app]. f_equal. apply repeat_eq. unfold lenN, b2n. cbn [length app]. rewrite ?L.
       destruct (neg || blank || sign); cbn [length]; lia.
 Qed.
 
-(** render_hexadecimal = std.jsonnet render_hex — except `#` on a zero magnitude *)
-Lemma render_hex_refines : forall neg iv padding precision alt blank sign caps,
-  0 <= iv < 2 ^ 63 -> (neg = true -> iv <> 0) -> (alt = true -> iv <> 0) ->
-  impl_render_hex neg iv padding precision alt blank sign caps =
-  spec_render_hex (if neg then - iv else iv) (Z.of_N padding) (Z.of_N precision) blank sign alt caps.
+(** render_hexadecimal (on the floored argument) = std.jsonnet render_hex *)
+Lemma render_hex_refines : forall n padding precision alt blank sign caps,
+  Z.abs n < 2 ^ 63 ->
+  impl_render_hex n padding precision alt blank sign caps =
+  spec_render_hex n (Z.of_N padding) (Z.of_N precision) blank sign alt caps.
 Proof.
-  intros neg iv padding precision alt blank sign caps Hz Hneg Halt.
+  intros n padding precision alt blank sign caps Hz.
+  assert (Hz' : 0 <= Z.abs n < 2 ^ 63) by lia.
   unfold impl_render_hex, impl_render_integer, spec_render_hex.
   change radix_hex with 16. change prefix_hex_upper with [48%N; 88%N]. change prefix_hex_lower with [48%N; 120%N].
   change prefix_in_padding_hex with false.
-  rewrite (sat_small iv Hz). rewrite numeral_refines by (auto; lia).
-  assert (A : Z.abs (if neg then - iv else iv) = iv) by (destruct neg; lia).
-  assert (Ng : ((if neg then - iv else iv) <? 0) = neg).
-  { destruct neg; [apply Z.ltb_lt; specialize (Hneg eq_refl); lia | apply Z.ltb_ge; lia]. }
-  rewrite A, Ng.
-  pose proof (spec_numeral_len caps 16 iv ltac:(auto) Hz) as L.
+  rewrite (sat_small _ Hz'). rewrite numeral_refines by (auto; lia).
+  rewrite andb_false_r.
+  pose proof (spec_numeral_len caps 16 (Z.abs n) ltac:(auto) Hz') as L.
   f_equal. unfold pad_left.
   destruct alt.
-  - specialize (Halt eq_refl). replace (iv =? 0) with false by (symmetry; apply Z.eqb_neq; exact Halt).
-    f_equal. f_equal. apply repeat_eq. unfold lenN, b2n. cbn [length app]. rewrite ?L.
-    destruct caps; destruct (neg || blank || sign); cbn [length]; lia.
-  - replace (if iv =? 0 then [] else []) with (@nil N) by (destruct (iv =? 0); reflexivity).
-    cbn [app]. f_equal. apply repeat_eq. unfold lenN, b2n. cbn [length app]. rewrite ?L.
-    destruct (neg || blank || sign); cbn [length]; lia.
+  - f_equal. f_equal. apply repeat_eq. unfold lenN, b2n. cbn [length app]. rewrite ?L.
+    destruct caps; destruct ((n <? 0) || blank || sign); cbn [length]; lia.
+  - cbn [app]. f_equal. apply repeat_eq. unfold lenN, b2n. cbn [length app]. rewrite ?L.
+    destruct ((n <? 0) || blank || sign); cbn [length]; lia.
 Qed.
-
-Lemma render_hex_alt_zero_refuted :
-  impl_render_hex false 0 0 0 true false false false = [48%N] /\
-  spec_render_hex 0 0 0 false false true false = [48%N; 120%N; 48%N].
-Proof. split; vm_compute; reflexivity. Qed.
 
 Lemma render_saturation_refuted :
   impl_render_decimal false (2 ^ 63) 0 0 false false <> spec_render_int false (2 ^ 63) 0 0 false false 10 [].
@@ -462,24 +387,6 @@ Proof. vm_compute. discriminate. Qed.
 (* ------------------------------------------------------------------ format_code, integer conversions *)
 Lemma floor_abs_nonneg : forall n d, 0 < d -> 0 <= floor_abs n d.
 Proof. intros. unfold floor_abs. apply Z.div_pos; lia. Qed.
-
-Lemma hex_signed_floor : forall n d, 0 < d -> ((n <? 0) && negb (n mod d =? 0)) = false ->
-  (if n <? 0 then - floor_abs n d else floor_abs n d) = n / d.
-Proof.
-  intros n d Hd H. unfold floor_abs. destruct (n <? 0) eqn:E.
-  - apply Z.ltb_lt in E. cbn in H. apply negb_false_iff, Z.eqb_eq in H.
-    rewrite Z.abs_neq by lia. rewrite Z.div_opp_l_z by lia. lia.
-  - apply Z.ltb_ge in E. rewrite Z.abs_eq by lia. reflexivity.
-Qed.
-
-Lemma hex_neg_nonzero : forall n d, 0 < d -> ((n <? 0) && negb (n mod d =? 0)) = false ->
-  (n <? 0) = true -> floor_abs n d <> 0.
-Proof.
-  intros n d Hd H E. rewrite E in H. cbn in H. apply negb_false_iff, Z.eqb_eq in H.
-  apply Z.ltb_lt in E. unfold floor_abs. rewrite Z.abs_neq by lia.
-  rewrite Z.div_opp_l_z by lia.
-  assert (n / d < 0) by (apply Z.div_lt_upper_bound; lia). lia.
-Qed.
 
 Lemma int_format_refines : forall v c w p,
   wf_value v -> is_int_conv (c_type c) = true -> known_int_class v c = false ->
@@ -492,44 +399,54 @@ Proof.
               match p with Some q => Z.of_N q | None => 0 end) by (destruct p; reflexivity).
   destruct v as [n d sh|s|sh|fs sh]; try (destruct (c_type c); try discriminate; reflexivity).
   cbn [wf_value] in Hwf. unfold known_int_class in Hk.
-  apply orb_false_iff in Hk. destruct Hk as [Hsat Hk]. apply Z.leb_gt in Hsat.
+  apply orb_false_iff in Hk. destruct Hk as [Hsat Hsat2]. apply Z.leb_gt in Hsat. apply Z.leb_gt in Hsat2.
   pose proof (floor_abs_nonneg n d Hwf) as Hnn.
   destruct (c_type c); try discriminate; cbn [as_num bind fst snd]; f_equal.
   - rewrite render_decimal_refines by lia. rewrite P, Q. reflexivity.
-  - rewrite render_octal_refines; [rewrite P, Q; reflexivity | lia | | ].
-    + intros Hm. destruct (n =? 0) eqn:E; [|reflexivity].
-      apply Z.eqb_eq in E. subst. unfold floor_abs in Hm. cbn in Hm. try rewrite Z.div_0_l in Hm by lia. congruence.
-    + exact Hk.
-  - apply orb_false_iff in Hk. destruct Hk as [Ha Hf].
-    rewrite render_hex_refines; [rewrite P, Q, (hex_signed_floor n d Hwf Hf); reflexivity | lia | | ].
-    + apply hex_neg_nonzero; assumption.
-    + intros A. rewrite A in Ha. cbn in Ha. apply Z.eqb_neq. exact Ha.
+  - rewrite render_octal_refines by lia. rewrite P, Q. reflexivity.
+  - rewrite render_hex_refines by lia. rewrite P, Q. reflexivity.
 Qed.
 
-Lemma hex_negative_fraction_refuted :
-  exists v c, wf_value v /\ known_int_class v c = true /\
-    impl_format_tmp v c 0 None = Ok [45; 49]%N /\ spec_format_tmp v c 0 None = Ok [45; 50]%N.
+Lemma int_format_nonvacuous_known : exists v c, wf_value v /\ is_int_conv (c_type c) = true /\ known_int_class v c = true.
 Proof.
-  exists (VNum (-3) 2 []), {| c_mkey := []; c_flags := no_flags; c_width := WFixed 0; c_prec := None;
-                              c_type := GHexadecimal; c_caps := false |}.
+  exists (VNum (2 ^ 63) 1 []), {| c_mkey := []; c_flags := no_flags; c_width := WFixed 0; c_prec := None;
+                                  c_type := GDecimal; c_caps := false |}.
   repeat split; vm_compute; reflexivity.
 Qed.
 
-(* ------------------------------------------------------------------ final padding *)
-Lemma byte_len_ascii : forall s, Forall (fun c => (c < 128)%N) s -> byte_len s = lenN s.
+(** %c: the guard for negative numbers and the saturating `as u32` agree with std.char *)
+Lemma char_format_refines : forall v c w p,
+  wf_value v -> c_type c = GChar -> impl_format_tmp v c w p = spec_format_tmp v c w p.
 Proof.
-  induction 1 as [|c t Hc Ht IH]; [reflexivity|].
-  unfold byte_len, lenN in *. cbn [fold_right length]. rewrite IH. unfold utf8_len.
-  replace (c <? 128)%N with true by (symmetry; apply N.ltb_lt; exact Hc). lia.
+  intros v c w p Hwf Hc. unfold impl_format_tmp, spec_format_tmp. rewrite Hc.
+  destruct v as [n d sh|s|sh|fs sh]; try reflexivity.
+  cbn [wf_value] in Hwf. destruct (le_m1 n d) eqn:L; [reflexivity|].
+  unfold as_u32, le_m1, floor_abs, valid_scalar in *.
+  destruct (n <? 0) eqn:E.
+  - cbn [andb] in L. apply Z.geb_leb in L || idtac.
+    assert (Z.abs n / d = 0).
+    { assert (0 <= Z.abs n / d) by (apply Z.div_pos; lia).
+      destruct (Z.abs n / d >=? 1) eqn:G; [discriminate|]. rewrite Z.geb_leb in G. apply Z.leb_gt in G. lia. }
+    rewrite H. reflexivity.
+  - apply Z.ltb_ge in E. rewrite Z.abs_eq by lia.
+    assert (0 <= n / d) by (apply Z.div_pos; lia).
+    destruct (Z.le_gt_cases (n / d) 4294967295) as [Hs|Hb].
+    + rewrite Z.min_l by lia. reflexivity.
+    + rewrite Z.min_r by lia.
+      replace (n / d <=? 1114111) with false by (symmetry; apply Z.leb_gt; lia).
+      destruct (0 <=? n / d); reflexivity.
 Qed.
 
+(* ------------------------------------------------------------------ final padding *)
 Lemma pad_refines : forall left w tmp,
-  Forall (fun c => (c < 128)%N) tmp -> (lenN tmp < 65536)%N ->
-  impl_pad left w tmp = spec_pad left w tmp.
+  (w <= u16_max)%N -> impl_pad left w tmp = spec_pad left w tmp.
 Proof.
-  intros left w tmp Ha Hl. unfold impl_pad, spec_pad, pad_left, pad_right.
-  rewrite (byte_len_ascii tmp Ha). rewrite N.mod_small by exact Hl.
-  assert (E : N.to_nat (w - lenN tmp) = Z.to_nat (Z.of_N w - Z.of_nat (length tmp))) by (unfold lenN; lia).
+  intros left w tmp Hw. unfold impl_pad, spec_pad, pad_left, pad_right.
+  assert (E : N.to_nat (w - (if (lenN tmp <=? u16_max)%N then lenN tmp else u16_max)) =
+              Z.to_nat (Z.of_N w - Z.of_nat (length tmp))).
+  { destruct (lenN tmp <=? u16_max)%N eqn:C; unfold lenN, u16_max in *.
+    - lia.
+    - apply N.leb_gt in C. lia. }
   rewrite E. reflexivity.
 Qed.
 
@@ -542,13 +459,48 @@ Proof.
   - unfold spec_pad, pad_left, pad_right. destruct left; eexists; reflexivity.
 Qed.
 
-Lemma width_bytes_refuted :
-  lenN (impl_pad false 5 [233%N]) = 4%N /\ lenN (spec_pad false 5 [233%N]) = 5%N.
+Lemma pad_nonascii_example :
+  impl_pad false 5 [233%N] = [32; 32; 32; 32; 233]%N /\ lenN (impl_pad true 5 [128512%N]) = 5%N.
 Proof. split; vm_compute; reflexivity. Qed.
 
-Lemma g_underflow_refuted :
-  impl_render_shorter 1 2 0 0 false false false false = Err EPanic /\
-  spec_render_shorter 1 2 0 0 false false false false = [49]%N.
+(* ------------------------------------------------------------------ %e %f %g never underflow *)
+Lemma render_float_ok : forall num den padding precision b s e t,
+  (precision <= 308)%N -> exists o, impl_render_float num den padding precision b s e t = Ok o.
+Proof.
+  intros. unfold impl_render_float. cbv zeta.
+  replace (308 <? precision)%N with false by (symmetry; apply N.ltb_ge; assumption).
+  destruct (precision =? 0)%N; [eexists; reflexivity|].
+  match goal with |- context [if ?b then Ok _ else Ok _] => destruct b end; eexists; reflexivity.
+Qed.
+
+Lemma render_float_sci_ok : forall num den padding precision b s e t caps,
+  (precision <= 308)%N -> exists o, impl_render_float_sci num den padding precision b s e t caps = Ok o.
+Proof.
+  intros. unfold impl_render_float_sci. cbv zeta.
+  match goal with |- context [impl_render_float ?a ?b0 ?c ?d ?e0 ?f ?g ?h] =>
+    destruct (render_float_ok a b0 c d e0 f g h H) as [o E] end.
+  rewrite E. eexists. reflexivity.
+Qed.
+
+(** the unchecked u16 subtractions of the %g arm cannot underflow any more *)
+Lemma g_no_underflow : forall num den padding fpprec b s alt caps,
+  (fpprec <= 308)%N -> exists o, impl_render_shorter num den padding fpprec b s alt caps = Ok o.
+Proof.
+  intros num den padding fpprec b s alt caps H. unfold impl_render_shorter. cbv zeta.
+  destruct ((exp10 num den <? -4) || (exp10 num den >=? Z.of_N (N.max fpprec 1))) eqn:C.
+  - unfold sub16. replace (1 <=? N.max fpprec 1)%N with true by (symmetry; apply N.leb_le; lia).
+    cbn [bind]. apply render_float_sci_ok. lia.
+  - apply orb_false_iff in C. destruct C as [C1 C2]. apply Z.ltb_ge in C1.
+    rewrite Z.geb_leb in C2. apply Z.leb_gt in C2.
+    unfold sub16.
+    replace (N.max 1 (Z.to_N (exp10 num den) + 1) <=? N.max fpprec 1)%N with true
+      by (symmetry; apply N.leb_le; lia).
+    cbn [bind]. apply render_float_ok. lia.
+Qed.
+
+Lemma g_zero_precision_example :
+  impl_render_shorter 1 2 0 0 false false false false = Ok [49%N] /\
+  spec_render_shorter 1 2 0 0 false false false false = [49%N].
 Proof. split; vm_compute; reflexivity. Qed.
 (* ------------------------------------------------------------------ format_arr: values consumed left to right *)
 Section RunFacts.
@@ -749,3 +701,9 @@ Lemma percent_example :
   impl_std_format [97; 37; 37; 98]%N (TArr []) = Ok [97; 37; 98]%N /\
   spec_std_format [97; 37; 37; 98]%N (TArr []) = Ok [97; 37; 98]%N.
 Proof. split; vm_compute; reflexivity. Qed.
+
+(** the remaining float finding: 10^309 is not a binary64 number, the debug_assert fires *)
+Lemma float_pow_overflow_refuted :
+  impl_render_float 1 1 0 309 false false false true = Err EPanic /\
+  exists o, impl_render_float 1 1 0 308 false false false true = Ok o.
+Proof. split; [vm_compute; reflexivity|]. apply render_float_ok. lia. Qed.
